@@ -11,7 +11,7 @@ prop = Prop(
     level="exploration",
     technique="Hypothesis PBT over generated workflow programs x chaos schedules x injected faults on a deterministic loop with an exact deadlock detector; oracle = termination/status invariants + reference interpreter",
     rule=(
-        "programs as in C05 (source/map/zip/scatter/gather/cond/loop/schedule+execute, <= 12 blocks) run by StreamFlowExecutor "
+        "programs as in C05 (source/map/zip/scatter/gather/cross-product/cond/loop/schedule+execute, <= 12 blocks) run by StreamFlowExecutor "
         "under a drawn schedule; sub-check no-failure: no fault, optionally some leaf streams left unconnected to any workflow "
         "output (dangling steps); sub-check with-failure: 1..2 faults (a job's command fails or raises, a transformer raises, a "
         "conditional raises) with the default (non-recovering) failure manager. Non-trivial = >= 3 steps and a non-empty "
@@ -23,7 +23,7 @@ prop = Prop(
 )
 prop.engine = "detloop"
 
-ALL_OPS = ("map", "zip", "scatter", "gather", "cond", "loop", "exec")
+ALL_OPS = ("map", "zip", "scatter", "gather", "cond", "loop", "exec", "cross")
 
 nofail_case = st.fixed_dictionaries(
     {
